@@ -180,6 +180,14 @@ def run(ctx):
     if cyc:
         ctx.violation("pauser-idle-cycle", sp_file_line(pz.term(cyc[0]).get("sp")),
                       "`%s` has a cycle (bb%d -> bb%d) that does not read a command" % (short(pz.name), cyc[0], cyc[1]))
+    # end of input is `quit`, and `quit` always detaches: otherwise an exhausted input is re-read forever
+    dodge, stop_b = dbg.quit_dodges(disp, arms)
+    ctx.instance(1)
+    ctx.oblig(not dodge, {"quit / end of input": "always raises StopDebugger"}, "must-pass-through in the Quit arm")
+    if dodge:
+        ctx.violation("quit-refused", sp_file_line(disp.term(arms["Quit"]).get("sp")),
+                      "the Quit arm can finish without raising StopDebugger (lines %s): end of input is mapped to quit, so with the input exhausted the session "
+                      "neither executes nor consumes anything any more" % disp.path_lines(disp.path(arms["Quit"], dodge, avoid=stop_b)))
     # the dispatcher reads exactly one command per call, before the match
     reads = [b for b, t, c in disp.calls() if c and c.endswith("Command::<'a>::read_from")]
     ctx.need(len(reads) == 1, "command read in the dispatcher")
